@@ -10,6 +10,10 @@ checks, mutations and persist calls the code has (after the `fix:` commits):
                                                      `update_node`
   new_channel                                        high-water-mark check, find-or-create stub,
                                                      `Persist::new_channel`
+  sign_bolt11_invoice                                max_invoices check on the issued invoices, same hash: the
+                                                     same invoice is answered again, a different one refused;
+                                                     a non-zero amount is recorded IN MEMORY ONLY (it reaches the
+                                                     store with the next `update_node` of another request)
   forget_channel                                     stub: remove + `delete_channel`; ready: set the
                                                      monitor's forget flag, persist channel and (fix
                                                      2cdac39) the tracker entry; raise the high-water
@@ -31,6 +35,8 @@ structure Core where
   hwm : Nat               -- dbid_high_water_mark
   stubs : List Nat        -- dbids of live channel stubs
   forgetFlag : Bool       -- saw_forget_channel of the ready channel's monitor (tracker entry)
+  /-- invoices issued by the node: (payment hash, amount); the harness varies only the amount of an invoice -/
+  issued : List (Nat × Nat) := []
 deriving DecidableEq, Repr
 
 structure Cfg where
@@ -59,6 +65,15 @@ deriving Repr
 inductive Res | ok | err
 deriving DecidableEq, Repr
 
+/-- `Persist::update_node`: rewrites the whole `NodeStateEntry` — approved invoices, velocity control,
+    high-water mark.  Which `NodeState` fields that entry holds is read from the source
+    (`Gen/PersistConv.nodeSave`; `Props/C11.C11_gen_model_update_node` pins this definition to it). -/
+def Core.updateNode (disk mem : Core) : Core :=
+  { disk with vc := mem.vc, invoices := mem.invoices, hwm := mem.hwm, issued := mem.issued }
+
+/-- `Persist::update_node_allowlist`: the allowlist has a store entry of its own -/
+def Core.updateAllowlist (disk mem : Core) : Core := { disk with allow := mem.allow }
+
 def insertSorted (x : Nat) : List Nat → List Nat
   | [] => [x]
   | y :: ys => if x < y then x :: y :: ys else if x = y then y :: ys else y :: insertSorted x ys
@@ -82,7 +97,7 @@ def allowlistOp (s : St) (op : AlOp) (entries : List (Option Nat)) : St × Res :
       | .rm  => s.mem.allow.filter (fun y => !xs.contains y)
     let mem := { s.mem with allow := a }
     -- update_node_allowlist
-    ({ s with mem := mem, disk := { s.disk with allow := a } }, .ok)
+    ({ s with mem := mem, disk := s.disk.updateAllowlist mem }, .ok)
 
 /-- `add_keysend` with a fresh payment hash (`dup = false`) or the previous one (`dup = true`).
     Velocity refusal is `Ok(false)`: not an error, nothing persisted (buckets shifted in memory only). -/
@@ -98,7 +113,17 @@ def keysend (c : Cfg) (s : St) (amt : Nat) (dup : Bool) : Option (St × Res) :=
       let mem := { s.mem with vc := v, invoices := s.mem.invoices + 1 }
       -- update_node: the whole NodeStateEntry
       some ({ s with mem := mem, lastPresent := true,
-                     disk := { s.disk with vc := mem.vc, invoices := mem.invoices, hwm := mem.hwm } }, .ok)
+                     disk := s.disk.updateNode mem }, .ok)
+
+/-- `sign_bolt11_invoice` for payment hash `h` and amount `amt` (0 = an invoice without amount).  Nothing is
+    persisted: the issued invoice is written with the next node entry. -/
+def signInvoice (c : Cfg) (s : St) (h amt : Nat) : St × Res :=
+  if c.maxInvoices ≤ s.mem.issued.length then (s, .err)                 -- "too many invoices"
+  else match s.mem.issued.find? (fun p => p.1 == h) with
+    | some p => if p.2 = amt then (s, .ok) else (s, .err)                -- the same invoice again / a different one
+    | none =>
+      if 0 < amt then ({ s with mem := { s.mem with issued := s.mem.issued ++ [(h, amt)] } }, .ok)
+      else (s, .ok)                                                      -- zero amount: not recorded
 
 def newChannel (c : Cfg) (s : St) (dbid : Nat) : St × Res :=
   if dbid ≤ s.mem.hwm then (s, .err)                            -- policy-channel-original-channel-id-reuse
@@ -121,12 +146,12 @@ def forgetChannel (c : Cfg) (s : St) (w : Nat) : St × Res :=
     let hwm := max s.mem.hwm id
     let mem := { s.mem with forgetFlag := true, hwm := hwm }
     -- chan.forget() persists the channel entry; update_node if the mark rose; then update_tracker
-    let disk1 := if s.mem.hwm < id then { s.disk with vc := mem.vc, invoices := mem.invoices, hwm := mem.hwm } else s.disk
+    let disk1 := if s.mem.hwm < id then s.disk.updateNode mem else s.disk
     ({ s with mem := mem, disk := { disk1 with forgetFlag := true } }, .ok)
   else if s.mem.stubs.contains id then
     let hwm := max s.mem.hwm id
     let mem := { s.mem with stubs := s.mem.stubs.filter (· != id), hwm := hwm }
-    let disk1 := if s.mem.hwm < id then { s.disk with vc := mem.vc, invoices := mem.invoices, hwm := mem.hwm } else s.disk
+    let disk1 := if s.mem.hwm < id then s.disk.updateNode mem else s.disk
     ({ s with mem := mem, disk := { disk1 with stubs := disk1.stubs.filter (· != id) } }, .ok)
   else (s, .ok)                                                  -- "forget_channel didn't find": Ok, nothing
 
@@ -162,6 +187,7 @@ inductive Op
   | ks (amt : Nat) (dup : Bool)
   | newch (dbid : Nat)
   | forget (w : Nat)
+  | sinv (h amt : Nat)
   | restart
 deriving Repr
 
@@ -173,6 +199,7 @@ def step (c : Cfg) (s : St) : Op → Option (St × Res)
   | .ks amt dup => keysend c s amt dup
   | .newch d => some (newChannel c s d)
   | .forget w => some (forgetChannel c s w)
+  | .sinv h amt => some (signInvoice c s h amt)
   | .restart => some (restart s)
 
 def Core.init (vc : VC) : Core :=
